@@ -364,12 +364,29 @@ static void longrun(int A)
     hx_sample("long run a=%d: %d bytes through every incremental interface in chunks of 7 (in) / 13 (out) against the single-call result", A, L);
 }
 
+/* the C++ hash / XOF objects: copy construction, assignment over a used object and self-assignment in the middle of a message */
+void cpp_xof_copy(int a, const unsigned char *m, size_t n, unsigned char *out, size_t outlen, int mode);
+void cpp_hash_copy(int a, const unsigned char *m, size_t n, unsigned char *out, int mode);
+static void cppcopy(void)
+{
+    static const char *mn[] = {"copy-constructed", "assigned", "self-assigned"}; uint8_t got[48], exp[48]; char kb[64];
+    for (int A = 0; A < 2; A++) for (int mode = 0; mode < 3; mode++) for (size_t n = 0; n <= 40; n++) {
+        ref_xof(A, MSG, n, exp, 40); cpp_xof_copy(A, MSG, n, got, 40, mode); hx_stat("evaluations", 1); hx_stat("transitions", 1);
+        if (memcmp(got, exp, 40)) { snprintf(kb, sizeof kb, "chunking:cpp:xof%s", A ? "a" : ""); hx_fail(kb, "%s object in the middle of a %zu-byte message does not continue like the original", mn[mode], n); }
+        ref_hash(A, MSG, n, exp); cpp_hash_copy(A, MSG, n, got, mode); hx_stat("evaluations", 1); hx_stat("transitions", 1);
+        if (memcmp(got, exp, 32)) { snprintf(kb, sizeof kb, "chunking:cpp:hash%s", A ? "a" : ""); hx_fail(kb, "%s object in the middle of a %zu-byte message does not continue like the original", mn[mode], n); }
+    }
+    hx_stat("states", 1); hx_stat("traces_validated", 1);
+    hx_sample("C++ hash/hasha/xof/xofa objects: copy construction, assignment over a used object, self-assignment at the midpoint of messages of 0..40 bytes");
+}
+
 int main(int argc, char **argv)
 {
     hx_init();
     if (argc < 3) return 2;
     const char *mn = argv[1]; int tier = atoi(argv[2]);
     hx_fill(MSG, sizeof MSG, HX_P_DENSE, 4); hx_fill(KEY, sizeof KEY, HX_P_DENSE, 1); hx_fill(NONCE, 16, HX_P_DENSE, 2); hx_fill(AD, 16, HX_P_DENSE, 3); hx_fill(CUSTOM, 16, HX_P_DENSE, 5);
+    if (!strcmp(mn, "cppcopy")) { cppcopy(); hx_finish(); return 0; }
     if (!strncmp(mn, "longrun", 7)) { longrun(mn[7] == '-'); hx_finish(); return 0; }
     machine m; char base[32]; int variant = 0;
     /* name syntax: xof, xofa, xof:fixed, xof:custom, hash, hasha, prf, prf:fixed, kmac, kmaca, kdf, kdfa, hmac, hmaca, hkdf, hkdfa, enc128, enc128a, enc80pq, dec128, ... */
